@@ -36,6 +36,7 @@ pub struct LoopContext {
     pub break_jumps: Vec<usize>,
     pub continue_jumps: Vec<usize>, // for-loop: forward patch to increment
     pub is_for_loop: bool,          // for: continue forward, while: continue back
+    pub scope_depth: usize,         // scopes open when the loop started (break/continue leave the rest)
 }
 
 pub struct Compiler {
